@@ -18,6 +18,7 @@ prop("C01", "Assignment fidelity: the destination receives exactly the source va
 ])
 
 prop("C02", "Non-interference: a rule changes only its own destination", [
+    ("destination_write_frame", "dst_write_frame", "RULE LEVEL: Ctx.set on a destination that is not a context variable changes no variable, counter or log, and no object other than the one the destination's root variable points to"),
     ("field_write_frame", "setwb_frame", "writing a field leaves all variables, counters, trace, break depth, error channel and every other object untouched"),
     ("other_fields_untouched", "oupdate_flat_other", "within an object, the other fields keep their value"),
     ("written_field_holds_value", "oupdate_flat_same", "the written field holds the new value"),
@@ -169,6 +170,10 @@ prop("C18", "Builtin modifiers and getters compute what their documentation says
 ])
 
 prop("C19", "Context variables form a last-write-wins store visible to later rules", [
+    ("rule_binds_name", "ctx_rule_binds", "a rule `ctx.name = expr` binds name to the value of expr: vector inspector for nodes, static otherwise (null / absent nodes bind nothing)"),
+    ("rule_binds_name_as_T", "ctx_rule_binds_as", "with `as T` / `.(T)` the registered inspector T"),
+    ("unknown_inspector_is_error", "ctx_rule_unknown_ins", "an unregistered T is an error and binds nothing"),
+    ("binding_visible_others_untouched", "ctx_rule_visible", "later rules resolve the name against that binding; no other name is disturbed"),
     ("latest_binding_wins", "ctx_set_get_same", "Set binds or rebinds: the latest binding wins"),
     ("rebinding_leaves_others", "ctx_set_get_other", "rebinding one name never disturbs another"),
     ("reset_unbinds_all", "reset_unbinds", "Reset unbinds everything"),
